@@ -227,6 +227,9 @@ macro_rules! drive {
     }};
 }
 
+/// the skipping calls from every Start event make a run quadratic: only on inputs up to this length
+const SKIP_CLONE_MAX: usize = 3000;
+
 pub fn run_variant(v: Variant, input: &[u8], cfg: u8) -> Result<Summary, String> {
     let script = match v {
         Variant::Buf(p) | Variant::Async(p) | Variant::NsBuf(p) | Variant::NsAsync(p) => Script::pieces(p),
@@ -241,7 +244,7 @@ pub fn run_variant(v: Variant, input: &[u8], cfg: u8) -> Result<Summary, String>
                 apply_cfg(reader.config_mut(), cfg);
                 drive!(input, reader, {
                     let r = reader.read_event();
-                    if let Ok(Event::Start(e)) = &r {
+                    if let (Ok(Event::Start(e)), true) = (&r, input.len() <= SKIP_CLONE_MAX) {
                         // the skipping calls are read calls too: on a clone, from every Start event
                         let name = e.name().as_ref().to_vec();
                         let len = strip_bom(input).len() as u64;
@@ -294,7 +297,7 @@ pub fn run_variant(v: Variant, input: &[u8], cfg: u8) -> Result<Summary, String>
                 apply_cfg(reader.config_mut(), cfg);
                 drive!(input, reader, {
                     let r = reader.read_resolved_event().map(|(_, e)| e);
-                    if let Ok(Event::Start(e)) = &r {
+                    if let (Ok(Event::Start(e)), true) = (&r, input.len() <= SKIP_CLONE_MAX) {
                         let name = e.name().as_ref().to_vec();
                         let mut c = reader.clone();
                         let _ = c.read_to_end(quick_xml::name::QName(&name));
@@ -365,7 +368,7 @@ fn sweep(ctx: &Ctx, ln: u32, sp: &Space, slice_cfgs: &[u8], other_cfgs: &[u8], c
                     }
                     Err(what) => acc.violation(
                         (ln, i),
-                        format!("input {:?} cfg [{}] {:?}: {}", lossy(&input), cfg_show(cfg), v, what),
+                        format!("input {:?} cfg [{}] {:?}: {}", lossy_head(&input), cfg_show(cfg), v, what),
                         json!({"input": bytes_json(&input), "cfg": cfg, "variant": vi}),
                     ),
                 }
@@ -393,7 +396,7 @@ fn sweep_eof_once(ctx: &Ctx, ln: u32, sp: &Space, cfgs: &[u8]) {
                         }
                         Err(what) => acc.violation(
                             (ln, i),
-                            format!("input {:?} cfg [{}] {:?}: {}", lossy(&input), cfg_show(cfg), v, what),
+                            format!("input {:?} cfg [{}] {:?}: {}", lossy_head(&input), cfg_show(cfg), v, what),
                             json!({"input": bytes_json(&input), "cfg": cfg, "eof_once_at": k, "async": matches!(v, Variant::AsyncEofOnce(_))}),
                         ),
                     }
@@ -457,6 +460,9 @@ pub fn run(ctx: &Ctx) {
     sweep(ctx, ln, &context("Init.bom", &[b"", b"\xEF\xBB", b"\xEF\xBB\xBF", b"\xFE\xFF", b"\xFF\xFE", b"\x00<\x00?", b"<\x00?\x00"], b"<?xml >a\x00", t.pick(4, 5), &[b""], false), &three, &three, false);
     sweep(ctx, ln + 3, &ws_class(), &four, &[DEFAULT], false);
     sweep(ctx, ln + 4, &mid_bom(t.pick(3, 4)), &four, &four, false);
+    // size thresholds: every template through the small sizes; depth / count / long-name templates up to 2^16 (+2)
+    sweep(ctx, ln + 5, &stretch("S.stretch", STRETCH_READER, t.pick(12, 70), t.pick(10, 12), t.pick(4, 7)), &three, &[DEFAULT], false);
+    sweep(ctx, ln + 6, &stretch_lists("S.deep", STRETCH_DEEP, pow_sizes(11, t.pick(16, 17)), vec![0, 1, 2, 3]), &[DEFAULT, 127u8], &[DEFAULT], false);
     sweep_eof_once(ctx, ln + 1, &raw("A.raw", SIGMA_M, t.pick(4, 5)), &three);
     sweep_eof_once(ctx, ln + 2, &atoms("C.atoms", ATOMS_C, t.pick(2, 3)), &three);
 }
@@ -469,7 +475,7 @@ pub fn replay(case: &Value) -> Result<(), String> {
         Some(k) => Variant::BufEofOnce(k as usize),
         None => VARIANTS[case["variant"].as_u64().unwrap_or(0) as usize],
     };
-    println!("input: {:?} cfg [{}] variant {:?}", lossy(&input), cfg_show(cfg), v);
+    println!("input: {:?} cfg [{}] variant {:?}", lossy_head(&input), cfg_show(cfg), v);
     let mut obs = Vec::new();
     run_slice(&input, cfg, 3, &mut obs);
     println!("slice reader trace:");
